@@ -90,6 +90,9 @@ class _TabulationCutoff(object):
 
     if not nr is None and nr <= 0:
       raise ConfigParserException("'{nr}' in [Tabulation] section of potential definition cannot be 0 (zero) or negative.".format(**self._template_dict))
+    if not nr is None and nr < 2:
+      # ... the step between rows is cutoff/(nr-1)
+      raise ConfigParserException("'{nr}' in [Tabulation] section of potential definition should be at least 2.".format(**self._template_dict))
     if not cutoff is None and cutoff <= 0:
       raise ConfigParserException("'{cutoff}' in [Tabulation] section of potential definition cannot be 0 (zero) or negative.".format(**self._template_dict))
     return nr, cutoff
